@@ -39,7 +39,7 @@ class Run:
         self.violations = []   # (obligation, replay path, suffix)
         self.known_lines = []
         self.quiet = quiet
-        self.tag = tag or prop
+        self.tag = (tag or prop) + os.environ.get("VERIF_TAG", "")
         self.kf = load_known_findings()
         self.kani_replays = {}  # harness ob name -> replay path
 
